@@ -93,11 +93,16 @@ Qed.
 Definition denotes (sc : list sframe) (b : bexpr) (hv : bval) : Prop :=
   strip_builtins (static_base_path sc b) = strip_builtins (join_dot (written_path (eval_base b hv))).
 
+Lemma strip_join_object : strip_builtins (join_dot builtins_object) = "object".
+Proof. reflexivity. Qed.
+
 Lemma norm_inspector r : norm_bases (inspector_bases r) = norm_bases (map join_dot r).
 Proof.
-  unfold norm_bases, inspector_bases. induction r as [|p r IH]; simpl; auto.
-  destruct (path_eqb p builtins_object) eqn:E; simpl.
-  - apply path_eqb_eq in E. subst p. rewrite IH. reflexivity.
+  unfold norm_bases, inspector_bases. generalize inspector_skips_object. intros sk.
+  induction r as [|p r IH]; [reflexivity|]. cbn [filter map].
+  destruct (sk && path_eqb p builtins_object) eqn:E; cbn [negb filter map].
+  - apply andb_prop in E. destruct E as [_ E]. apply path_eqb_eq in E. subst p.
+    rewrite IH, strip_join_object. reflexivity.
   - rewrite IH. reflexivity.
 Qed.
 
